@@ -164,23 +164,35 @@ func runC13(c *Ctx) {
 		}
 		bad := false
 		// direct and one level of in-package callees
-		check := func(f *ssa.Function) {
-			for _, meth := range []string{"Store", "Swap", "CompareAndSwap"} {
-				if len(atomicCalls(f, runningF, meth)) > 0 {
-					bad = true
-				}
+		// the function, its literals, and two levels of in-package callees (with their literals)
+		seenF := map[*ssa.Function]bool{}
+		var check func(f *ssa.Function, depth int)
+		check = func(f *ssa.Function, depth int) {
+			if f == nil || seenF[f] || len(f.Blocks) == 0 {
+				return
 			}
-		}
-		check(fn)
-		for _, b := range fn.Blocks {
-			for _, in := range b.Instrs {
-				if ci, ok := in.(ssa.CallInstruction); ok {
-					if callee := ci.Common().StaticCallee(); callee != nil && callee.Pkg == fn.Pkg && len(callee.Blocks) > 0 {
-						check(callee)
+			seenF[f] = true
+			for _, ff := range kit.WithAnon(f) {
+				for _, meth := range []string{"Store", "Swap", "CompareAndSwap"} {
+					if len(atomicCalls(ff, runningF, meth)) > 0 {
+						bad = true
+					}
+				}
+				if depth <= 0 {
+					continue
+				}
+				for _, b := range ff.Blocks {
+					for _, in := range b.Instrs {
+						if ci, ok := in.(ssa.CallInstruction); ok {
+							if callee := ci.Common().StaticCallee(); callee != nil && callee.Pkg == fn.Pkg {
+								check(callee, depth-1)
+							}
+						}
 					}
 				}
 			}
 		}
+		check(fn, 2)
 		c.R.Check(!bad, r5, m+" leaves Instance.running alone", c.Pos(fn.Pos()), "ok", m+" writes Instance.running: after a live swap the instance would look stopped (or a failed swap would mark it running twice)", true)
 	}
 
